@@ -155,23 +155,22 @@ Section WithOracle.
   Definition npm_exact (req : bytes) (v : version) : bool :=
     bytes_eqb req (ver v) || existsb (bytes_eqb req) (split_on 44 (tags v)).
 
-  (* first component: the caller's slice after the call (sorted in place for npm) *)
-  Definition match_npm (req : bytes) (vs : list version) : list version * list version :=
+  (* the slice is cloned before it is sorted: the caller's slice is left alone *)
+  Definition match_npm (req : bytes) (vs : list version) : list version :=
     let vs' := sort_npm vs in
-    (vs',
-     if o_constraint O sys_npm req then filter (fun v => o_match O sys_npm req (ver v)) vs'
-     else match find (npm_exact req) vs' with
-          | Some v => [v]
-          | None => []
-          end).
+    if o_constraint O sys_npm req then filter (fun v => o_match O sys_npm req (ver v)) vs'
+    else match find (npm_exact req) vs' with
+         | Some v => [v]
+         | None => []
+         end.
 
   Definition match_generic (sys : N) (req : bytes) (vs : list version) : list version :=
     if o_constraint O sys req then filter (fun v => o_match O sys req (ver v)) vs
     else filter (fun v => bytes_eqb req (ver v)) vs.
 
-  Definition match_requirement (req : vkey) (vs : list version) : list version * list version :=
+  Definition match_requirement (req : vkey) (vs : list version) : list version :=
     if N.eqb (pk_sys (vk_pkg req)) sys_npm then match_npm (vk_ver req) vs
-    else (vs, match_generic (pk_sys (vk_pkg req)) (vk_ver req) vs).
+    else match_generic (pk_sys (vk_pkg req)) (vk_ver req) vs.
 End WithOracle.
 
 (* ---------- SortDependencies / sortNPMDependencies (no semver involved) ---------- *)
